@@ -99,7 +99,20 @@ func VH_print(size int, isRepl int) {
 func VH_printNested(n int, inObject int) {
 	in := NewInterpreter()
 	env := environment.NewEnvironmentWithParent(in.globals)
-	txt := hvText(n)
+	var txt []rune
+	if n == 0 {
+		// a concrete Bangla text with a character that has a canonical decomposition (U+09CB)
+		// and the composition-excluded U+09DF: the real NFC runs on it
+		txt = []rune("\u0995\u09cb\u09df\u09be")
+	} else {
+		txt = hvText(n)
+		for i := 0; i < n; i++ {
+			// below U+0300 normalisation is the identity and no combining mark exists; above it
+			// NFC is an uninterpreted function and containment cannot be decided
+			verifAssume(txt[i] < 0x300)
+			verifAssume(txt[i] >= 0x20)
+		}
+	}
 	// the string reaches the container the way a program's literal does: through eval(Literal)
 	sv, _ := in.eval(lit(stringLiteralValue(txt), 2), env, false)
 	utils.HadError, utils.HadRuntimeError = false, false
@@ -114,7 +127,7 @@ func VH_printNested(n int, inObject int) {
 	in.eval(&ast.PrintStatement{Expression: node}, env, false)
 	verifAssert("nested-print-one-line", hvCountStdout() == 1 && hvCountStderr() == 0)
 	if hvCountStdout() == 1 {
-		verifAssert("nested-string-prints-as-its-characters", verifTextContainsInOrder(verifEventText(0), string(txt)))
+		verifAssert("nested-string-prints-as-its-characters", verifTextContainsInOrder(verifEventText(0), norm.NFC.String(string(txt))))
 	}
 }
 
